@@ -9,6 +9,7 @@ import (
 	"verifharness/internal/c06"
 	"verifharness/internal/c15"
 	"verifharness/internal/c16"
+	"verifharness/internal/c19"
 	"verifharness/internal/common"
 )
 
@@ -18,6 +19,7 @@ var subs = map[string]sub{
 	"c06": c06.Run,
 	"c15": c15.Run,
 	"c16": c16.Run,
+	"c19": c19.Run,
 }
 
 var gens = map[string]func(outDir string) error{
